@@ -62,7 +62,7 @@ static void build_template(const std::string &prop)
                 groups.push_back(kv.second);
         grammar::set_rhyme_groups(groups);
     }
-    std::vector<std::pair<std::string, int>> specs = { { "en", 2 }, { "enc", 1 }, { "fr", 1 } };
+    std::vector<std::pair<std::string, int>> specs = { { "en", 2 }, { "enc", 1 }, { "fr", 1 }, { "enx", 1 } };
     if (prop == "C18")
         specs.push_back({ "env", 1 }); // variance normalisation on (a front-end configuration the models do not use)
     for (auto &spec : specs)
@@ -95,6 +95,7 @@ struct DecState {
     int nfr_start = 0;
     int probe_id = -1;
     int n_queries = 0, n_calls = 0;
+    bool align_mid_utt = false; // an alignment was requested before the end of the current utterance
     bool sched_noncanonical = false;
     // C16: reference map spelling -> pronunciation for every word touched by an add or lookup, alternates per base
     std::map<std::string, std::string> dict_model;             // spellings known to be present -> "PH PH"
@@ -1539,6 +1540,8 @@ struct Exec {
         } else if (what == "json") {
             check_json(s, op, final, opi);
         } else if (what == "align") {
+            if (!final)
+                s.align_mid_utt = true;
             Rec r = capture(s.d);
             capture_alignment(s.d, r);
             out.events.str(r.to_json(true).dump());
@@ -1652,6 +1655,11 @@ struct Exec {
         if (a.size() > 220) a = a.substr(0, 220) + "...";
         if (b.size() > 220) b = b.substr(0, 220) + "...";
         std::string trig = profile == "C08" ? "history" : (s.sched_noncanonical ? "schedule" : "repeat");
+        // known finding: with Gaussian selection on every n-th frame only (ds > 1) an alignment requested before the end
+        // of the utterance leaves the scorer's top-N history in the aligner's state; named by its cause, not by the field
+        // that happens to differ first, so that it is one class and every other schedule dependence stays visible
+        if (profile != "C08" && s.align_mid_utt && config_int(s.d->config, "ds") > 1)
+            field = "ds>1+alignment_before_end";
         viol(prop, profile == "C08" ? "isolation" : "schedule_invariance", trig + ":" + field,
              field + " differs from the pristine canonical execution: " + a + " vs " + b, opi);
     }
@@ -1751,6 +1759,7 @@ struct Exec {
                 s.searched = 0;
                 s.n_queries = s.n_calls = 0;
                 s.sched_noncanonical = false;
+                s.align_mid_utt = false;
                 s.probe = op.getb("probe");
                 s.probe_id = (int)op.geti("probe_id", -1);
                 int rv = decoder_start_utt(s.d);
@@ -2192,10 +2201,11 @@ struct Gen {
 
 static const char *pick_tmpl(Rng &r)
 {
-    switch (r.weighted({ 55, 25, 20 })) {
+    switch (r.weighted({ 50, 22, 18, 10 })) {
     case 0: return "en";
     case 1: return "enc";
-    default: return "fr";
+    case 2: return "fr";
+    default: return "enx";
     }
 }
 
@@ -2323,7 +2333,7 @@ struct DecWorld : World {
         } else if (prop == "C08") {
             g.builds_lattices = true;
             int nd = (int)r.range(1, 3);
-            std::vector<std::string> slots = { "en", "en", "enc", "fr" }, ts;
+            std::vector<std::string> slots = { "en", "en", "enc", "fr", "enx" }, ts;
             for (size_t i = slots.size(); i > 1; --i)
                 std::swap(slots[i - 1], slots[r.below(i)]);
             for (int i = 0; i < nd; ++i) {
